@@ -60,6 +60,27 @@ func genC07(g *Gen, tier string) *Program {
 					}
 					pos := g.Range(i+1, len(ops))
 					ops = append(ops[:pos], append(extra, ops[pos:]...)...)
+					if g.Bool(50) {
+						// the same child was also derived while the parent was live and
+						// stays open: asking the closed parent for it again must still give
+						// an inert scope, not the live child
+						def := -1
+						for j := 0; j < i; j++ {
+							if (ops[j].K == "sub" || ops[j].K == "tag") && ops[j].D == s {
+								def = j
+							}
+						}
+						if def >= 0 {
+							first := extra[0]
+							first.D = 91
+							if first.Tags != nil {
+								first.Tags = copyTags(first.Tags)
+							}
+							pre := []Op{first, {K: "counter", S: 91, M: 91, Name: "cc"}, {K: "inc", M: 91, I: 3}}
+							ppos := g.Range(def+1, i)
+							ops = append(ops[:ppos], append(pre, ops[ppos:]...)...)
+						}
+					}
 					break
 				}
 			}
